@@ -1,7 +1,7 @@
 (* C03 property theorems: statements only, each closed by [exact] (or by evaluating a
    decidable obligation over the table REGENERATED from the source on every run). *)
 From Boltons Require Import Lib.Prelude Lib.C03_Syntax Lib.C03_Conc Model.C03_Model
-     Proofs.C03_Serial Proofs.C03_Covered Proofs.C03_Main Proofs.C03_Link1 Proofs.C03_Link2 Proofs.C03_Link3 Gen.C03_Gen.
+     Proofs.C03_Serial Proofs.C03_Covered Proofs.C03_Main Proofs.C03_Link1 Proofs.C03_Link2 Proofs.C03_Link4 Proofs.C03_Link3 Gen.C03_Gen.
 
 (* (T) obligation over regenerated data: in the CURRENT source, self._lock is a
    threading.RLock and every statement of every C03 method of LRI and LRU that touches the
@@ -109,16 +109,25 @@ Theorem C03_sequential_refines_C02 :
 Proof. exact op_link. Qed.
 Print Assumptions C03_sequential_refines_C02.
 
+(* ... and for all 15 operations (c02_op: copy() returns C02's `ring m`, c == c returns True) *)
+Theorem C03_sequential_refines_C02_all :
+  forall tb c, 1 <= cf_max c ->
+  forall s m o, stands_for c s m ->
+    let '(s', r) := run_op tb c s o in
+    let '(m', r') := c02_op (cfg2 c) m o in
+    r = r' /\ stands_for c s' m'.
+Proof. exact op_link_all. Qed.
+Print Assumptions C03_sequential_refines_C02_all.
+
 (* THE statement of C03 against C02's model: for every covered lock table, every configuration
-   with max_size >= 1, all thread programs over the 13 operations C02 models (all but copy and
-   c == c), every schedule: the values returned to each thread are those C02's sequential model
+   with max_size >= 1, all thread programs over all 15 operations, every schedule: the values returned to each thread are those C02's sequential model
    returns when the same operations are executed one at a time in SOME order that respects every
    thread's own order, and the final dict and ring represent that model's final state, which
    satisfies C02's invariant. *)
 Theorem C03_atomic_wrt_C02 :
   forall tb, table_covered tb = true ->
   forall c, 1 <= cf_max c ->
-  forall progs, (forall t, Forall translatable (progs t)) ->
+  forall progs : nat -> list op,
   forall sh0 m0, stands_for c sh0 m0 ->
   forall sched,
     let s := conc_run tb c progs sh0 sched in
@@ -133,7 +142,7 @@ Print Assumptions C03_atomic_wrt_C02.
 Theorem C03_never_exceeds_max_size :
   forall tb, table_covered tb = true ->
   forall c, 1 <= cf_max c ->
-  forall progs, (forall t, Forall translatable (progs t)) ->
+  forall progs : nat -> list op,
   forall sh0 m0, stands_for c sh0 m0 ->
   forall sched,
     let s := conc_run tb c progs sh0 sched in
@@ -145,16 +154,16 @@ Print Assumptions C03_never_exceeds_max_size.
 Theorem C03_usable_afterwards :
   forall tb, table_covered tb = true ->
   forall c, 1 <= cf_max c ->
-  forall progs, (forall t, Forall translatable (progs t)) ->
+  forall progs : nat -> list op,
   forall sh0 m0, stands_for c sh0 m0 ->
   forall sched,
     let s := conc_run tb c progs sh0 sched in
     finished s ->
     exists mS, stands_for c (m_sh s) mS /\
-      forall o o1, tr o = Some o1 ->
+      forall o,
         let '(s', r) := run_op tb c (m_sh s) o in
-        let '(m', out) := Boltons.Model.C02_Model.step1 (cfg2 c) mS o1 in
-        r = conv_out o out /\ stands_for c s' m'.
+        let '(m', r') := c02_op (cfg2 c) mS o in
+        r = r' /\ stands_for c s' m'.
 Proof. exact usable_afterwards. Qed.
 Print Assumptions C03_usable_afterwards.
 
@@ -163,20 +172,17 @@ Print Assumptions C03_usable_afterwards.
 Definition ex2_progs : nat -> list op :=
   fun t => match t with
            | 0 => [SetItem 0 10; GetItem 1; SetItem 2 12]
-           | 1 => [SetItem 1 11; Pop 0 None; Len]
+           | 1 => [SetItem 1 11; Pop 0 None; Len; Copy]
            | _ => []
            end.
 Example C03_link_inhabited :
   stands_for (mkConfig LRU 2 None) shared_init Boltons.Model.C02_Model.empty_cache
-  /\ (forall t, Forall translatable (ex2_progs t))
   /\ (let s := conc_run gen_table (mkConfig LRU 2 None) ex2_progs shared_init
                          (repeat 0 9 ++ repeat 1 30 ++ repeat 0 40 ++ repeat 1 60 ++ repeat 0 80 ++ repeat 1 80) in
        t_todo (m_thr s 0) = [] /\ t_todo (m_thr s 1) = [] /\ t_cur (m_thr s 0) = None /\ t_cur (m_thr s 1) = None
-       /\ t_done (m_thr s 1) = [RNone; RExn KeyError; RNat 2]).
+       /\ t_done (m_thr s 1) = [RNone; RExn KeyError; RNat 2; RItems [(2, 12); (1, 11)]]).
 Proof.
-  split; [apply stands_for_init|]. split.
-  - intros [|[|t]]; simpl; repeat constructor; discriminate.
-  - vm_compute. repeat split; reflexivity.
+  split; [apply stands_for_init|]. vm_compute. repeat split; reflexivity.
 Qed.
 
 (* the hypotheses are inhabited by a non-trivial run: LRU(max_size=2) holding 0,1; thread 0
